@@ -122,7 +122,10 @@ class _OnlyRead(object):
 # where the characters come from: a StringIO without / with the default newline setting, a file named by its path,
 # a file opened from a descriptor (its name is a number), a pipe (it cannot seek or tell), a bare read() object
 # a spooled temporary file (its name is None while it lives in memory)
-SOURCES = ("stream", "path", "stream-default", "fd", "pipe", "reader-object", "stream-advanced", "spooled")
+# 'path-no-bom': a file whose bytes are not what the declared encoding promises (UTF-16 / UTF-32 without the byte order
+# mark those codecs insist on): there is no character stream then - reading fails with a data-format error
+SOURCES = ("stream", "path", "stream-default", "fd", "pipe", "reader-object", "stream-advanced", "spooled",
+           "path-no-bom")
 
 
 _CHEAP_SOURCES = ("stream", "stream-default", "reader-object", "stream-advanced", "spooled")
@@ -155,6 +158,11 @@ def judge(sub, text, widths, setting, via="stream", encoding="utf-8", tmpdir=Non
             os.write(write_end, text.encode(encoding))
             os.close(write_end)
             source = opened = os.fdopen(read_end, "r", encoding=encoding, newline="")
+        elif via == "path-no-bom":
+            source = os.path.join(tmpdir, "data.txt")
+            encoding = "utf-32" if len(text) % 2 else "utf-16"
+            with open(source, "wb") as f:
+                f.write(("xx" + text).encode(encoding + "-le"))
         else:
             source = os.path.join(tmpdir, "data.txt")
             with open(source, "wb") as f:
@@ -189,6 +197,10 @@ def judge(sub, text, widths, setting, via="stream", encoding="utf-8", tmpdir=Non
     except Exception as error:
         sub.fail("C13|exc|%s|%s" % (type(error).__name__, via), case,
                  "fixed_rows raised %s: %s" % (type(error).__name__, error))
+        return None
+    if via == "path-no-bom":
+        if rows is not None:
+            sub.fail("C13|undecodable-accepted|%s" % encoding, case, "bytes without byte order mark read as %r" % (rows,))
         return None
     expected = wellformed_records(text, total, setting)
     if rows is None:
@@ -344,7 +356,7 @@ def check_file_case(sub, case):
         variants += [text[:i] + ch + text[i + 1:] for i in range(len(text))]
     elif edit == "single":  # replay form: explicit variant
         variants = [text]
-    tmpdir = reused_dir("c13") if case["via"] in ("path", "fd") else None
+    tmpdir = reused_dir("c13") if case["via"] in ("path", "fd", "path-no-bom") else None
     try:
         for variant in variants:
             n_rows = judge(sub, variant, widths, setting, case["via"], case["encoding"], tmpdir)
@@ -448,7 +460,49 @@ def _boundary_shard(args):
     return sub
 
 
+# -- the widths of a CID that is put together in steps ------------------------------------------------------------------
+def _growing_cid_shard(_):
+    """A fixed-width CID built by program: some fields, a first use, more fields, then the reading that is judged -
+    it goes by the widths the CID has when it is asked."""
+    from cutplace import interface
+    from vlib.runner import Sub
+
+    sub = Sub("growing-cid")
+    for widths in ((1, 2), (2, 1), (2, 2, 1), (1, 1, 3), (3, 2, 1, 1)):
+        for first in range(1, len(widths)):
+            for setting in ("lf", "any", "none"):
+                cid = interface.Cid()
+                cid.add_data_format_row(["Format", "Fixed"])
+                cid.add_data_format_row(["Line delimiter", {"lf": "LF", "any": "Any", "none": "None"}[setting]])
+                for index, width in enumerate(widths[:first]):
+                    cid.add_field_format_row(["f%d" % index, "", "", str(width), "Text", ""])
+                early = interface.field_names_and_lengths(cid)
+                for index, width in enumerate(widths[first:], first):
+                    cid.add_field_format_row(["f%d" % index, "", "", str(width), "Text", ""])
+                fields = interface.field_names_and_lengths(cid)
+                case = {"text": "", "widths": list(widths), "setting": setting, "via": "growing-cid", "first": first}
+                sub.evaluations += 1
+                sub.case(("growing-cid", widths, first, setting), True, ["growing-cid"])
+                if [w for _, w in early] != list(widths[:first]) or [w for _, w in fields] != list(widths):
+                    sub.fail("C13|growing-cid|widths", case, "field_names_and_lengths: %r after %d fields, %r after all %d "
+                             "(declared widths %r)" % (early, first, fields, len(widths), widths))
+                    continue
+                total = sum(widths)
+                record = "".join(chr(ord("a") + i % 26) for i in range(total))
+                text = (record + DELIMS[setting][0] if setting != "none" else record) * 2
+                try:
+                    rows = list(rowio.fixed_rows(io.StringIO(text, newline=""), "utf-8", fields, SETTINGS[setting]))
+                except Exception as error:
+                    sub.fail("C13|growing-cid|%s" % type(error).__name__, dict(case, text=text),
+                             "well-formed %r under the grown CID raised %s: %s" % (text, type(error).__name__, error))
+                    continue
+                if rows != [split_row(record, widths)] * 2:
+                    sub.fail("C13|growing-cid|rows", dict(case, text=text), "%r read as %r" % (text, rows))
+    return sub
+
+
 def run(ctx):
+    ctx.par(_growing_cid_shard, [0])
     boundary = _boundary_cases(not ctx.quick)
     ctx.par(_boundary_shard, [(i, ctx.workers, boundary) for i in range(ctx.workers)])
     max_len = ctx.n(7, 9)
